@@ -131,3 +131,45 @@ def run(f):
     except Exception as e:  # pylint: disable=broad-except
         return {'msg': 'a well-formed .mapping file was rejected: %s: %s (cause %r)' % (type(e).__name__, e, e.__cause__), 'text': lines}
     return {'msg': check_file(f, loaded), 'text': lines if len(lines) < 60 else None}
+
+
+MAP_FAULTS = ['undefined_origin_atom', 'undefined_target_atom', 'unknown_identifier', 'unknown_section', 'undefined_reference_atom']
+
+
+def inject_fault(rng, f, fault):
+    """the text of a .mapping file that must be rejected"""
+    lines = print_file(f)
+    idx = [i for i, l in enumerate(lines) if l == '[ mapping ]']
+    pos = rng.choice(idx) + 1
+    m = f['mappings'][idx.index(pos - 1)]
+    ident = _ident(m, 1)
+    bead = TO_BLOCKS[m['resnames'][0]][0][0]
+    atom = FROM_BLOCKS[m['resnames'][0]][0][0]
+    if fault == 'undefined_origin_atom':
+        new = ['%s:NOPE %s:%s' % (ident, ident, bead)]
+    elif fault == 'undefined_target_atom':
+        new = ['%s:%s %s:NOPE' % (ident, atom, ident)]
+    elif fault == 'unknown_identifier':
+        new = ['XXX#7:%s %s:%s' % (atom, ident, bead)]
+    elif fault == 'unknown_section':
+        return lines[:pos] + ['[ bogus ]', 'x y'] + lines[pos:]
+    else:
+        # a reference atom that is not an atom of the origin block; the section may already be there
+        end = pos
+        while end < len(lines) and not lines[end].startswith('['):
+            end += 1
+        if end < len(lines) and lines[end] == '[ reference atoms ]':
+            return lines[:end + 1] + ['%s:%s %s:NOPE' % (ident, bead, ident)] + lines[end + 1:]
+        return lines[:end] + ['[ reference atoms ]', '%s:%s %s:NOPE' % (ident, bead, ident)] + lines[end:]
+    return lines[:pos] + new + lines[pos:]
+
+
+def run_fault(f, fault, sub):
+    import random
+    from vermouth.map_parser import MappingDirector
+    lines = inject_fault(random.Random(sub), f, fault)
+    try:
+        list(MappingDirector(make_force_fields()).parse(iter(lines)))
+    except (IOError, KeyError, ValueError, AssertionError):
+        return {'msg': None}
+    return {'msg': 'a .mapping file with the fault %s was loaded without an error' % fault, 'text': lines}
